@@ -327,6 +327,24 @@ def m_box_new(ex, n, a, f):
     return BoxV(Cell(a[0]))
 
 
+@model(r'^std::boxed::Box::<.*>::new_uninit$')
+def m_box_new_uninit(ex, n, a, f):
+    return BoxV(Cell(MaybeUninitV()))
+
+
+@model(r'^std::boxed::box_assume_init_into_vec_unsafe::<')
+def m_box_into_vec(ex, n, a, f):
+    arr = ex.force(a[0]).cell.v
+    return VecV(list(arr.cells))
+
+
+@model(r'^std::slice::<impl \[.*\]>::into_vec', r'^alloc::slice::<impl \[.*\]>::into_vec')
+def m_slice_into_vec(ex, n, a, f):
+    b = ex.force(a[0])
+    v = b.cell.v if isinstance(b, BoxV) else b
+    return VecV(list(v.cells))
+
+
 @model(r'^<std::boxed::Box<.*> as std::ops::Deref(Mut)?>::deref(_mut)?$', r'^<std::boxed::Box<.*> as std::convert::As(Ref|Mut)<.*>>::as_(ref|mut)$',
        r'^<std::boxed::Box<.*> as std::borrow::Borrow(Mut)?<.*>>::borrow(_mut)?$')
 def m_box_deref(ex, n, a, f):
@@ -608,7 +626,7 @@ def m_slice_contains(ex, n, a, f):
 
 
 # ---- generic iterator methods over IterV (slice::Iter, vec::IntoIter)
-ITER_PAT = r'^<(std::slice::Iter(Mut)?<.*>|std::vec::IntoIter<.*>|std::array::IntoIter<.*>) as std::iter::(Iterator|DoubleEndedIterator|ExactSizeIterator)>::'
+ITER_PAT = r'^<(std::slice::Iter(Mut)?<.*>|std::vec::IntoIter<.*>|std::array::IntoIter<.*>|std::collections::btree_(map|set)::(Iter|IterMut|IntoIter|Keys|Values|ValuesMut|IntoKeys|IntoValues)<.*>|std::vec::Drain<.*>) as std::iter::(Iterator|DoubleEndedIterator|ExactSizeIterator)>::'
 
 
 @model(ITER_PAT + r'next$')
@@ -764,6 +782,20 @@ def drain(ex, f, itv, key='Iterator::next'):
             c = itv.cells[itv.pos]
             itv.pos += 1
             yield itv.item(c)
+        return
+    if isinstance(itv, (Arr, VecV)):
+        for c in list(itv.cells):
+            yield c.v
+        return
+    if isinstance(itv, Ref):
+        tgt = ex.deref(itv)
+        if isinstance(tgt, (Arr, VecV, SliceRef)):
+            for c in list(tgt.cells):
+                yield Ref(c)
+            return
+    if isinstance(itv, SliceRef):
+        for c in list(itv.cells):
+            yield Ref(c)
         return
     nxt = f.get('aux', {}).get(key)
     if not nxt:
@@ -1172,3 +1204,464 @@ def m_scalar_to_string(ex, n, a, f):
     out = []
     render_arg(ex, FmtArg('display', a[0], tid, None), out)
     return StringV(out)
+
+
+# --------------------------------------------------------------------------- Rc / RefCell
+class RcV:
+    __slots__ = ('cell',)
+
+    def __init__(self, cell):
+        self.cell = cell
+
+    def __repr__(self):
+        return f"Rc({self.cell.v!r})"
+
+
+class RefCellV:
+    __slots__ = ('cell',)
+
+    def __init__(self, cell):
+        self.cell = cell
+
+    def __repr__(self):
+        return f"RefCell({self.cell.v!r})"
+
+
+class BorrowV:
+    """cell::Ref / cell::RefMut"""
+    __slots__ = ('cell',)
+
+    def __init__(self, cell):
+        self.cell = cell
+
+
+def mk_rc(ex, v):
+    return RcV(Cell(v))
+
+
+def mk_refcell(ex, tid, v):
+    return RefCellV(Cell(v))
+
+
+def deref_of(ex, v):
+    if isinstance(v, (RcV, BorrowV)):
+        return (v.cell, ())
+    return NotImplemented
+
+
+
+
+@model(r'^<std::rc::Rc<.*> as std::clone::Clone>::clone$')
+def m_rc_clone(ex, n, a, f):
+    return ex.deref(a[0]) if not isinstance(a[0], RcV) else a[0]
+
+
+REGISTRY.insert(0, REGISTRY.pop())   # before the generic Clone model
+
+
+@model(r'^<std::rc::Rc<.*> as std::ops::Deref>::deref$', r'^<std::rc::Rc<.*> as std::convert::AsRef<.*>>::as_ref$', r'^<std::rc::Rc<.*> as std::borrow::Borrow<.*>>::borrow$')
+def m_rc_deref(ex, n, a, f):
+    r = ex.deref(a[0])
+    return Ref(r.cell)
+
+
+@model(r'^std::rc::Rc::<.*>::new$')
+def m_rc_new(ex, n, a, f):
+    return RcV(Cell(a[0]))
+
+
+@model(r'^std::cell::RefCell::<.*>::new$')
+def m_refcell_new(ex, n, a, f):
+    return RefCellV(Cell(a[0]))
+
+
+@model(r'^std::cell::RefCell::<.*>::(borrow|borrow_mut|try_borrow|try_borrow_mut)$')
+def m_refcell_borrow(ex, n, a, f):
+    rc = ex.deref(a[0])
+    if not isinstance(rc, RefCellV):
+        raise Unsupported(f"borrow of {rc!r}"[:100])
+    b = BorrowV(rc.cell)
+    if '::try_' in n:
+        rt = ret_ty(f)
+        return Adt(rt, ex.p.variant_index(rt, 'Ok'), [b])
+    return b
+
+
+@model(r'^<std::cell::Ref(Mut)?<\'_, .*> as std::ops::Deref(Mut)?>::deref(_mut)?$')
+def m_borrow_deref(ex, n, a, f):
+    b = ex.deref(a[0])
+    return Ref(b.cell)
+
+
+@model(r'^std::cell::RefCell::<.*>::into_inner$')
+def m_refcell_into_inner(ex, n, a, f):
+    return ex.force(a[0]).cell.v
+
+
+@model(r'^<([iu]\d+|[iu]size) as num::FromPrimitive>::from_([iu]\d+|[iu]size)$', r'^<([iu]\d+|[iu]size) as num_traits::FromPrimitive>::from_([iu]\d+|[iu]size)$')
+def m_from_primitive(ex, n, a, f):
+    src = f['abi_args'][0]
+    rt = ret_ty(f)
+    dst = ex.p.ty(rt)['adt']['targs'][0]
+    sb, ss = ex.int_info(src)
+    db, ds = ex.int_info(dst)
+    v = a[0]
+    lo, hi = (-(1 << (db - 1)), (1 << (db - 1)) - 1) if ds else (0, (1 << db) - 1)
+    if isinstance(v, int):
+        return some(ex, rt, v) if lo <= v <= hi else none(ex, rt)
+    # fits?
+    wide = max(sb, db) + 1
+    x = z3.SignExt(wide - sb, v) if ss else z3.ZeroExt(wide - sb, v)
+    ok = z3.And(x >= z3.BitVecVal(lo, wide), x <= z3.BitVecVal(hi, wide))
+    if ex.branch(ok, 'from_primitive'):
+        return some(ex, rt, ex.cast_int(v, src, dst))
+    return none(ex, rt)
+
+
+@model(ITER_PAT + r'(try_fold|try_rfold)::<')
+def m_iter_try_fold(ex, n, a, f):
+    it = get_iter(ex, a[0])
+    aux = f.get('aux', {})
+    br, fo, fr = aux.get('Try::branch'), aux.get('Try::from_output'), aux.get('FromResidual::from_residual')
+    if not (br and fo and fr):
+        raise Unsupported(f"try_fold without Try aux: {n[:100]}")
+    acc = a[1]
+    back = 'try_rfold' in n
+    while it.pos < it.end:
+        if back:
+            it.end -= 1
+            c = it.cells[it.end]
+        else:
+            c = it.cells[it.pos]
+            it.pos += 1
+        r = ex.call_value(a[2], [acc, it.item(c)])
+        cf = ex.force(ex.call(br, [r]))
+        if ex.p.variant_name(cf) == 'Continue':
+            acc = cf.fields[0]
+        else:
+            return ex.call(fr, [cf.fields[0]])
+    return ex.call(fo, [acc])
+
+
+@model(r'^std::array::iter::<impl std::iter::IntoIterator for \[.*\]>::into_iter$', r'^core::array::iter::<impl std::iter::IntoIterator for \[.*\]>::into_iter$')
+def m_array_into_iter(ex, n, a, f):
+    arr = ex.force(a[0])
+    return IterV(list(arr.cells), by_value=True)
+
+
+@model(r'^core::slice::iter::<impl std::iter::IntoIterator for &(mut )?\[.*\]>::into_iter$', r'^core::array::<impl std::iter::IntoIterator for &(mut )?\[.*\]>::into_iter$',
+       r'^std::array::<impl std::iter::IntoIterator for &(mut )?\[.*\]>::into_iter$')
+def m_sliceref_into_iter(ex, n, a, f):
+    return IterV(as_cells(ex, a[0]))
+
+
+@model(r' as std::slice::<impl \[T\]>::to_vec_in::ConvertVec>::to_vec::<')
+def m_convert_vec(ex, n, a, f):
+    return VecV([Cell(deep(ex.force_cell(c) if False else c.v)) for c in as_cells(ex, a[0])])
+
+
+@model(r'^std::slice::<impl \[.*\]>::to_vec(_in)?(::<.*>)?$', r'^alloc::slice::<impl \[.*\]>::to_vec(_in)?(::<.*>)?$')
+def m_slice_to_vec(ex, n, a, f):
+    return VecV([Cell(deep(c.v)) for c in as_cells(ex, a[0])])
+
+
+# --------------------------------------------------------------------------- BTreeMap / BTreeSet (concrete keys)
+class BTreeMapV:
+    __slots__ = ('entries',)   # sorted list of [sortkey, keyvalue, Cell(value)]
+
+    def __init__(self, entries=()):
+        self.entries = list(entries)
+
+    def __repr__(self):
+        return f"BTreeMap({len(self.entries)} entries)"
+
+
+def sort_key(ex, k):
+    k = ex.deref(k) if isinstance(k, Ref) else k
+    if isinstance(k, bool):
+        return (0, int(k))
+    if isinstance(k, int):
+        return (0, k)
+    if isinstance(k, (StringV, StrRef)):
+        return (1, ''.join(map(chr, k.chars)).encode()) if is_conc_chars(k.chars) else _symkey()
+    if isinstance(k, Tup):
+        return (2, tuple(sort_key(ex, x) for x in k.fields))
+    _symkey()
+
+
+def _symkey():
+    raise Unsupported("BTreeMap/BTreeSet with a symbolic or structured key")
+
+
+def mk_btreemap(ex, pairs):
+    m = BTreeMapV()
+    for k, v in pairs:
+        bt_insert(ex, m, k, v)
+    return m
+
+
+def bt_find(m, sk):
+    import bisect
+    keys = [e[0] for e in m.entries]
+    i = bisect.bisect_left(keys, sk)
+    return i, (i < len(keys) and keys[i] == sk)
+
+
+def bt_insert(ex, m, k, v):
+    sk = sort_key(ex, k)
+    i, found = bt_find(m, sk)
+    if found:
+        old = m.entries[i][2].v
+        m.entries[i][2].v = v
+        return old
+    m.entries.insert(i, [sk, k, Cell(v)])
+    return None
+
+
+_old_deep_extra2 = deep_extra
+
+
+def deep_extra(v, deep):
+    if isinstance(v, BTreeMapV):
+        return BTreeMapV([[e[0], e[1], Cell(deep(e[2].v))] for e in v.entries])
+    if isinstance(v, RcV):
+        return v
+    return _old_deep_extra2(v, deep)
+
+
+@model(r'^std::collections::BTree(Map|Set)::<.*>::new$', r'^<std::collections::BTree(Map|Set)<.*> as std::default::Default>::default$')
+def m_bt_new(ex, n, a, f):
+    return BTreeMapV()
+
+
+@model(r'^std::collections::BTreeMap::<.*>::insert$')
+def m_bt_insert(ex, n, a, f):
+    m = ex.deref(a[0])
+    old = bt_insert(ex, m, a[1], a[2])
+    rt = ret_ty(f)
+    return none(ex, rt) if old is None else some(ex, rt, old)
+
+
+@model(r'^std::collections::BTreeSet::<.*>::insert$')
+def m_bts_insert(ex, n, a, f):
+    m = ex.deref(a[0])
+    sk = sort_key(ex, a[1])
+    i, found = bt_find(m, sk)
+    if found:
+        return False
+    m.entries.insert(i, [sk, a[1], Cell(UNIT)])
+    return True
+
+
+@model(r'^std::collections::BTreeMap::<.*>::(get|get_mut)::<', r'^std::collections::BTreeMap::<.*>::get_key_value::<')
+def m_bt_get(ex, n, a, f):
+    m = ex.deref(a[0])
+    i, found = bt_find(m, sort_key(ex, a[1]))
+    rt = ret_ty(f)
+    if not found:
+        return none(ex, rt)
+    if 'get_key_value' in n:
+        return some(ex, rt, Tup([Ref(Cell(m.entries[i][1])), Ref(m.entries[i][2])]))
+    return some(ex, rt, Ref(m.entries[i][2]))
+
+
+@model(r'^std::collections::BTree(Map|Set)::<.*>::(contains_key|contains)::<')
+def m_bt_contains(ex, n, a, f):
+    m = ex.deref(a[0])
+    return bt_find(m, sort_key(ex, a[1]))[1]
+
+
+@model(r'^std::collections::BTreeMap::<.*>::remove::<')
+def m_bt_remove(ex, n, a, f):
+    m = ex.deref(a[0])
+    i, found = bt_find(m, sort_key(ex, a[1]))
+    rt = ret_ty(f)
+    if not found:
+        return none(ex, rt)
+    return some(ex, rt, m.entries.pop(i)[2].v)
+
+
+@model(r'^std::collections::BTree(Map|Set)::<.*>::len$')
+def m_bt_len(ex, n, a, f):
+    return len(ex.deref(a[0]).entries)
+
+
+@model(r'^std::collections::BTree(Map|Set)::<.*>::is_empty$')
+def m_bt_is_empty(ex, n, a, f):
+    return len(ex.deref(a[0]).entries) == 0
+
+
+@model(r'^std::collections::BTree(Map|Set)::<.*>::append$')
+def m_bt_append(ex, n, a, f):
+    m = ex.deref(a[0])
+    o = ex.deref(a[1])
+    for sk, k, c in o.entries:
+        i, found = bt_find(m, sk)
+        if found:
+            m.entries[i] = [sk, k, c]
+        else:
+            m.entries.insert(i, [sk, k, c])
+    o.entries = []
+    return UNIT
+
+
+@model(r'^std::collections::BTree(Map|Set)::<.*>::clear$')
+def m_bt_clear(ex, n, a, f):
+    ex.deref(a[0]).entries = []
+    return UNIT
+
+
+def bt_iter(ex, m, mode):
+    if mode == 'map':
+        return IterV([Cell(Tup([Ref(Cell(e[1])), Ref(e[2])])) for e in m.entries], by_value=True)
+    if mode == 'keys':
+        return IterV([Cell(Ref(Cell(e[1]))) for e in m.entries], by_value=True)
+    if mode == 'values':
+        return IterV([Cell(Ref(e[2])) for e in m.entries], by_value=True)
+    if mode == 'into_map':
+        return IterV([Cell(Tup([e[1], e[2].v])) for e in m.entries], by_value=True)
+    if mode == 'into_keys':
+        return IterV([Cell(e[1]) for e in m.entries], by_value=True)
+    if mode == 'into_values':
+        return IterV([Cell(e[2].v) for e in m.entries], by_value=True)
+
+
+@model(r'^std::collections::BTreeMap::<.*>::(iter|iter_mut)$', r'^<&(mut )?std::collections::BTreeMap<.*> as std::iter::IntoIterator>::into_iter$')
+def m_bt_iter(ex, n, a, f):
+    return bt_iter(ex, ex.deref(a[0]), 'map')
+
+
+@model(r'^std::collections::BTreeMap::<.*>::keys$', r'^std::collections::BTreeSet::<.*>::iter$', r'^<&std::collections::BTreeSet<.*> as std::iter::IntoIterator>::into_iter$')
+def m_bt_keys(ex, n, a, f):
+    return bt_iter(ex, ex.deref(a[0]), 'keys')
+
+
+@model(r'^std::collections::BTreeMap::<.*>::values(_mut)?$')
+def m_bt_values(ex, n, a, f):
+    return bt_iter(ex, ex.deref(a[0]), 'values')
+
+
+@model(r'^<std::collections::BTreeMap<.*> as std::iter::IntoIterator>::into_iter$')
+def m_bt_into_iter(ex, n, a, f):
+    return bt_iter(ex, ex.force(a[0]), 'into_map')
+
+
+@model(r'^std::collections::BTreeMap::<.*>::into_values$')
+def m_bt_into_values(ex, n, a, f):
+    return bt_iter(ex, ex.force(a[0]), 'into_values')
+
+
+@model(r'^std::collections::BTreeMap::<.*>::into_keys$', r'^<std::collections::BTreeSet<.*> as std::iter::IntoIterator>::into_iter$')
+def m_bt_into_keys(ex, n, a, f):
+    return bt_iter(ex, ex.force(a[0]), 'into_keys')
+
+
+@model(r'^std::collections::BTreeMap::<.*>::(first|last)_key_value$', r'^std::collections::BTreeSet::<.*>::(first|last)$')
+def m_bt_first_last(ex, n, a, f):
+    m = ex.deref(a[0])
+    rt = ret_ty(f)
+    if not m.entries:
+        return none(ex, rt)
+    e = m.entries[0] if '::first' in n else m.entries[-1]
+    if 'BTreeSet' in n:
+        return some(ex, rt, Ref(Cell(e[1])))
+    return some(ex, rt, Tup([Ref(Cell(e[1])), Ref(e[2])]))
+
+
+@model(r'^<std::collections::BTreeMap<.*> as std::iter::FromIterator<.*>>::from_iter::<')
+def m_bt_from_iter(ex, n, a, f):
+    m = BTreeMapV()
+    it = ex.force(a[0])
+    if isinstance(it, VecV):
+        it = IterV(list(it.cells), by_value=True)
+    for x in drain(ex, f, it):
+        bt_insert(ex, m, x.fields[0], x.fields[1])
+    return m
+
+
+@model(r'^<std::collections::BTreeSet<.*> as std::iter::FromIterator<.*>>::from_iter::<')
+def m_bts_from_iter(ex, n, a, f):
+    m = BTreeMapV()
+    it = ex.force(a[0])
+    if isinstance(it, VecV):
+        it = IterV(list(it.cells), by_value=True)
+    for x in drain(ex, f, it):
+        sk = sort_key(ex, x)
+        i, found = bt_find(m, sk)
+        if not found:
+            m.entries.insert(i, [sk, x, Cell(UNIT)])
+    return m
+
+
+@model(r'^<std::collections::BTreeMap<.*> as std::iter::Extend<.*>>::extend::<')
+def m_bt_extend(ex, n, a, f):
+    m = ex.deref(a[0])
+    it = ex.force(a[1])
+    if isinstance(it, VecV):
+        it = IterV(list(it.cells), by_value=True)
+    for x in drain(ex, f, it):
+        bt_insert(ex, m, x.fields[0], x.fields[1])
+    return UNIT
+
+
+@model(r'^std::collections::BTreeMap::<.*>::entry$')
+def m_bt_entry(ex, n, a, f):
+    raise Unsupported("BTreeMap::entry")
+
+
+# --------------------------------------------------------------------------- LazyLock statics
+class LazyLockV:
+    __slots__ = ('init', 'cell')
+
+    def __init__(self, init):
+        self.init = init
+        self.cell = None
+
+
+GLOBAL_STATICS = {}
+
+
+def static_hook(ex, st):
+    ty = ex.p.ty(st['ty'])['str']
+    if ty.startswith('std::sync::LazyLock<'):
+        init = st['init']
+        fn = None
+        for off, aid in init['provenance']['ptrs']:
+            al = ex.p.allocs.get(str(aid), {})
+            if isinstance(al, dict) and 'Function' in al:
+                fn = al['Function']
+        if fn is None:
+            raise Unsupported(f"LazyLock static {st['name']} without init fn")
+        key = (ex.p.path, st['name'])
+        ll = GLOBAL_STATICS.get(key)
+        if ll is None:
+            ll = LazyLockV(fn)
+            GLOBAL_STATICS[key] = ll
+        return ll
+    return NotImplemented
+
+
+@model(r'^<std::sync::LazyLock<.*> as std::ops::Deref>::deref$', r'^std::sync::LazyLock::<.*>::force$')
+def m_lazylock_deref(ex, n, a, f):
+    ll = ex.deref(a[0])
+    if not isinstance(ll, LazyLockV):
+        raise Unsupported(f"LazyLock deref of {ll!r}"[:100])
+    if ll.cell is None:
+        fi = ex.p.inst[ll.init]
+        args = []
+        if fi.get('arg_count', 0) == 2:
+            args = [ex.zst(fi['locals'][1]), Tup([])]
+        elif fi.get('arg_count', 0) == 1:
+            args = [ex.zst(fi['locals'][1])]
+        ll.cell = Cell(ex.call(ll.init, args))
+    return Ref(ll.cell)
+
+
+@model(r'^<std::vec::Vec<.*> as std::default::Default>::default$')
+def m_vec_default(ex, n, a, f):
+    return VecV([], ex.p.ty(ret_ty(f))['adt']['targs'][0])
+
+
+@model(r'^<std::string::String as std::default::Default>::default$')
+def m_string_default(ex, n, a, f):
+    return StringV(())
